@@ -63,6 +63,11 @@ def check_case(case):
     if got != want:
         raise Violation('digest', 'BitcoinMessage(%r..).GetHash() != dSHA256(varstr(magic)||varstr(utf8 message)) (%d bytes, %d chars)' % (
             text[:20], len(mb), len(text)))
+    if len(text) < 200:
+        # the text held as a str SUBCLASS whose str() is something else (a str-mixin Enum member, a masked string): the message
+        # is the text itself
+        if libx.call('gethash-str-subclass', BitcoinMessage(libx.UserStr(text)).GetHash)[1] != want:
+            raise Violation('digest/str-subclass', 'BitcoinMessage(<str subclass with its own __str__>) hashes something other than the text')
     if 'sig' not in case:
         case['sig'] = libx.call('signmessage', SignMessage, k, msg)[1].decode('ascii')
     sig = case['sig']
